@@ -17,7 +17,7 @@ RULE = ("Random and enumerated run layouts (>= 1 run) over a small alphabet (let
         "when str itself raises. distinct = distinct (layout, method, arguments); non-trivial = "
         "text has at least one character.")
 FLOOR = 2000
-SHARDS = {"thorough": 16}
+SHARDS = {"quick": 4, "thorough": 16}
 ASSUMPTIONS = ["line boundaries in generated text are \\n only",
                "regex patterns in the pool cannot match the empty string; capture groups are ignored (reference = spans of re.finditer)",
                "split() without separator, maxsplit and encode are outside the statement and not generated"]
@@ -128,7 +128,10 @@ def _run_case(ctx, case):
         ctx.count("str_itself_raises_not_judged")
         return
     try:
-        r = getattr(f, method)(*args, **kwargs)
+        bound = getattr(f, method)
+        if len(text) % 3 == 0:
+            getattr(f, "swapcase"), getattr(f, "lower")      # other methods looked up before the call
+        r = bound(*args, **kwargs)
         if len(text) % 2:
             r = getattr(f, method)(*args, **kwargs)      # asked again: same answer expected
     except Exception as ex:  # noqa
@@ -227,6 +230,15 @@ def run_join(ctx, case):
         ctx.judge(False, case, mech="C15:join", expected=want_text, got=repr(ex))
         return
     problems, got = obs.result_problems(r, want)
+    if not problems and how == "list":
+        # the operands are still what they were: joining them again gives the same
+        try:
+            p2, g2 = obs.result_problems(vsep.join(vals), want)
+            if p2:
+                problems = ["second join of the same operands: " + "; ".join(p2)]
+                got = g2
+        except Exception as ex:  # noqa
+            problems = ["second join raised %r" % (ex,)]
     ctx.judge(not problems, case, ("C15", "join", repr(case)), "C15:join", want_text,
               obs.show(got) if got is not None else None, problems, nontrivial=bool(want))
 
